@@ -222,6 +222,9 @@ class Conc(object):
     def _ip(self):
         rng = self.rng
         r = rng.random()
+        if r > 0.93:
+            # ordinary addresses whose text is a part of the loopback address's text
+            return pick(rng, ["27.0.0.1", "7.0.0.1", "27.0.0.1", "127.0.0.10", "127.0.0.11", "12.7.0.1"])
         if r < 0.08:
             first = 127
         else:
@@ -447,6 +450,26 @@ def make_config(cf, tmp):
     return conf
 
 
+class declared_os_name(object):
+    """The system's own name is DECLARED by the driver: the OS functions determine_hostname() consults
+    (insights/util/hostname.py: socket.gethostname, getfqdn, gethostbyname_ex) answer with the declared name."""
+
+    def __init__(self, conc):
+        self.conc = conc
+
+    def __enter__(self):
+        import socket
+        self.socket = socket
+        self.saved = (socket.gethostname, socket.getfqdn, socket.gethostbyname_ex)
+        short, fqdn = self.conc.short, self.conc.fqdn
+        socket.gethostname = lambda: short
+        socket.getfqdn = lambda *a: fqdn
+        socket.gethostbyname_ex = lambda *a: (fqdn, [], ["192.0.2.1"])
+
+    def __exit__(self, *a):
+        self.socket.gethostname, self.socket.getfqdn, self.socket.gethostbyname_ex = self.saved
+
+
 def make_cleaner(cf, conc, tmp):
     rm = {}
     if cf["kws"]:
@@ -454,7 +477,14 @@ def make_cleaner(cf, conc, tmp):
     if cf["pats"]:
         pats = [conc.pat[i][0] for i in cf["pats"]]
         rm["patterns"] = {"regex": pats} if cf["regex"] else pats
-    return Cleaner(make_config(cf, tmp), rm, conc.fqdn)
+    conf = make_config(cf, tmp)
+    if cf.get("nofqdn"):
+        # built as insights/collect.py builds it: no explicit fqdn; the inventory label (display_name) may be configured
+        if cf.get("dname"):
+            conf.display_name = "inventory-label-%s.labels.test" % word(conc.rng, LOW, 3, 6)
+        with declared_os_name(conc):
+            return Cleaner(conf, rm)
+    return Cleaner(conf, rm, conc.fqdn)
 
 
 def issued(cleaner, cf, conc):
